@@ -12,6 +12,7 @@ MAXENUM = {"quick": 5, "thorough": 6}
 
 
 class ParFront(Suite):
+    scaled_rate = 0.15       # share of the cases where the library gets the scheme times a power of two (algos.mk)
     escalate_cap = 300
     name = "parfront"
     imports = ["Scheme", "Rank", "Partition", "Judge.JOpt"]
@@ -93,7 +94,7 @@ class Consistent(Suite):
                 c = gen.random_ranking(rng, list(range(n)) + [n + 5], 1.0, 0.6)
             else:             # missing element
                 c = gen.random_ranking(rng, list(range(max(1, n - 1))), 1.0, 0.6)
-            cases.append({"P": P, "c": c})
+            cases.append({"P": P, "c": c, "again": rng.random() < 0.35})
         # F8 witnesses: empty group, consensus running out of buckets
         cases += [{"P": [[], [0]], "c": [[0]]}, {"P": [[0], [1]], "c": [[0]], "second": [[0], [1]]}]
         return cases
@@ -104,6 +105,15 @@ class Consistent(Suite):
         if "second" in case:
             rankings.append(Ranking([set(b) for b in case["second"]]))
         cons = Consensus(rankings)
+        if case.get("again"):
+            # the partition object has already answered: once for a consensus that respects it (its own groups as buckets), once for
+            # the reverse order - the judged call is the third one on the same object
+            groups = [g for g in case["P"] if g]
+            for first in (groups, list(reversed(groups))):
+                try:
+                    with_timeout(lambda: part.consistent_with(Consensus([Ranking([set(g) for g in first])])), 3)
+                except Exception:
+                    pass
 
         def f():
             try:
